@@ -1,6 +1,6 @@
 (* Props/C18.v - Connection ids are unique among live connections and address the right one. *)
 From Coq Require Import List NArith Lia Bool.
-From MM Require Import Lib.Bytes Model.ConnId Proofs.ConnIdProofs Gen.FactsControl Model.Packets Proofs.PacketProofs.
+From MM Require Import Lib.Bytes Model.ConnId Proofs.ConnIdProofs Gen.FactsControl Gen.FactsConn Model.Packets Proofs.PacketProofs.
 Import ListNotations.
 Open Scope N_scope.
 
@@ -11,7 +11,10 @@ Definition prefix_of (sid : N) : N := id_prefix control_max_server_id control_id
 Theorem c18_source_shape :
   translated_control = true /\ control_new_id_skeleton_ok = true /\ control_add_remove_kill_ok = true /\
   utils_seq_ok = true /\ W = 2 ^ control_id_bits /\ control_id_bits = 16 /\ control_max_server_id = 2 ^ 16 /\
-  server_too_many_code = 1040 /\ server_cb_finally_ok = true.
+  server_too_many_code = 1040 /\ server_cb_finally_ok = true /\
+  (* the registry entry lives exactly as long as the connection task: the only removal is the wrapper's `finally` *)
+  server_mysqlserver_client_connected_cb_ok = true /\ connection_connection_start_ok = true /\
+  connection_connection_inner_start_ok = true /\ connection_connection_kill_ok = true.
 Proof. repeat split; vm_compute; reflexivity. Qed.
 
 Lemma Wpos : 0 < W. Proof. reflexivity. Qed.
